@@ -122,7 +122,7 @@ func c09(t *Term) string {
 	for _, s := range t.Args[4].List() {
 		words = append(words, string(s.Bytes()))
 	}
-	f := text.NewFile("f", raw)
+	f := loadFile("f", raw, variantOf(raw, off))
 	var r *text.Reader
 	if (len(raw)+off)%2 == 0 {
 		// the reader may exist before the file is placed (FileSet.AddFile assigns the base offset
@@ -133,8 +133,34 @@ func c09(t *Term) string {
 		f.SetOffset(off)
 		r = text.NewReader(f)
 	}
+	first := c09Pass(f, r, off, runes, strs, words)
+	// a reader has no memory: after many other expressions were used on it (and on a second reader of the same
+	// file) every primitive must still answer the same
+	r2 := text.NewReader(f)
+	for i := 0; i < 70; i++ {
+		e := "z{" + strconv.Itoa(i+1) + "}|q" + strconv.Itoa(i)
+		for _, rd := range []*text.Reader{r, r2} {
+			func() {
+				defer func() { _ = recover() }()
+				rd.ReadRegexp(parsley.Pos(off+i%(f.Len()+1)), e)
+				rd.ReadRegexpSubmatch(parsley.Pos(off), "("+e+")")
+			}()
+		}
+	}
+	if second := c09Pass(f, r, off, runes, strs, words); second != first {
+		return OT("SecondPassDiffers", first, second)
+	}
+	return first
+}
+
+func c09Pass(f *text.File, r *text.Reader, off int, runes []int, strs, words []string) string {
 	var rows []string
 	for c := 0; c <= f.Len(); c++ {
+		if n := f.Len(); !(n <= 2000 || c < 60 || n < c+60 || (c < 12296 && (c%4096 < 6 || c%4096 >= 4090)) ||
+			c%65536 < 8 || c%65536 >= 65528) {
+			continue // of a big file: the first and last 60 positions, those around the first multiples of 4096 and
+			// around every multiple of 65536 (keep_position of coq/Reader.v)
+		}
 		pos := parsley.Pos(off + c)
 		cur := c
 		rows = append(rows, guard(func() string {
